@@ -205,10 +205,24 @@ impl TCheck for C01 {
         let desc = json!({"comp": comp.name(), "contents": contents.iter().map(|c| format!("{}{}{}", c.bytes.len(), match c.hint {Hint::Yes=>"Y",Hint::No=>"N",Hint::Detect=>"D"}, match c.src {SrcKind::Cursor=>"c",SrcKind::File=>"f",SrcKind::FileRange=>"r",SrcKind::Sim=>"s",SrcKind::FilePeeked=>"p",SrcKind::FileRangeToEnd=>"e"})).collect::<Vec<_>>(),
                           "dedup": dedup, "packaging": if basic {"BasicCreator one-file"} else {"content pack file"}, "knobs": knobs.iter().map(|(k,v)| format!("{k}={v}")).collect::<Vec<_>>()});
         if basic {
+            // every other BasicCreator work hands extra content packs to finalize(), with ids that
+            // are not contiguous ({1, 2, 9} / {1, 5}): pack ids are the application's choice
+            let mut contents = contents;
+            let (n_packs, absent_ids) = match (work / 4) % 4 {
+                1 => (9u16, 0b0_1111_1100u32),
+                3 => (5, 0b0_1110),
+                _ => (1, 0),
+            };
+            if n_packs > 1 {
+                let ids: Vec<u16> = (1..=n_packs).filter(|p| absent_ids & (1 << (p - 1)) == 0).collect();
+                for (i, c) in contents.iter_mut().enumerate() {
+                    c.pack = ids[i % ids.len()];
+                }
+            }
             let logical = Arc::new(Logical {
                 comp,
                 packaging: Packaging::BasicOne,
-                n_packs: 1,
+                n_packs,
                 contents,
                 schema: SchemaSpec {
                     key_prefix: 2,
@@ -218,7 +232,10 @@ impl TCheck for C01 {
                 },
                 dedup: false,
                 aux_seed: rng.next_u64(),
-                opts: Default::default(),
+                opts: gen::LogicalOpts {
+                    absent_ids,
+                    ..Default::default()
+                },
             });
             let dir2 = dir.clone();
             Prepared {
@@ -237,6 +254,9 @@ impl TCheck for C01 {
                         sim_stats: Arc::clone(&stats),
                     };
                     let _ = std::fs::remove_file(dir2.join("img.jbk"));
+                    if logical.n_packs > 1 {
+                        rep.notes.insert("basic_creator_extra_packs_sparse_ids".into(), 1);
+                    }
                     match gen::build(&logical, &dir2, "img", &opts) {
                         Err(e) => rep.complaints.push(format!("BasicCreator creation failed: {e}")),
                         Ok(built) => {
